@@ -156,7 +156,7 @@ def check_after_hourly(case, rec):
 
 
 def search_after_hourly(ctx):
-    gs.run_stratified(ctx, ctx.total(16, 200), outcomes=["inside", "edge_large"], methods=["NEARSQUARE", "RECTANGLE", "BIRECTANGLE"],
+    gs.run_stratified(ctx, ctx.total(16, 120), outcomes=["inside", "edge_large"], methods=["NEARSQUARE", "RECTANGLE", "BIRECTANGLE"],
                       months=st.just(12))
 
 
@@ -167,12 +167,12 @@ def _scn(methods=None, months=None):
 
 
 def search_l2(ctx):
-    gs.run_stratified(ctx, ctx.total(84, 1200))
+    gs.run_stratified(ctx, ctx.total(84, 600))
 
 
 def search_l3(ctx):
     ctx.given_shared(_scn(methods=["NEARSQUARE", "RECTANGLE", "BIRECTANGLE", "BIZONEDRECTANGLE"], months=st.sampled_from([12, 60])),
-                     ctx.total(4, 36))
+                     ctx.total(4, 16))
 
 
 SUBS = [
